@@ -20,7 +20,8 @@ DESIGN_REF = "6/C11"
 ASSUMPTIONS = [
     "payloadSize >= 1 (NewClient refuses msize <= 153, see C12)",
     "0 <= offset and offset + len(p) < 2^63 (no int64 wrap of the running offset)",
-    "a failing Twrite stores nothing; a reply never reports more bytes than were asked for",
+    "C11_write ('stores exactly p[:n]') assumes that a Twrite answering an error has stored nothing; C11_write_general covers a backend that stores and fails (file = p[:x], n <= x)",
+    "a reply never reports more bytes than were asked for; one Twrite(k accepted) has stored exactly the first k bytes of its chunk at its offset; one Tread returns bytes of the file at its offset",
 ]
 TRUSTED_BASE = [
     "Coq 8.16.1 kernel, vm_compute (cases evaluation); no native_compute",
@@ -57,8 +58,24 @@ def ocalls(cs):
     return "[" + "; ".join("(%s, %s, %s, %s)" % (zz(c["off"]), nat(c["len"]), nat(c["n"]), err(c["err"])) for c in (cs or [])) + "]"
 
 
+def ftape(o):
+    return "[" + "; ".join("(%d%%N, %s)" % (a["n"], err(a["err"])) for a in (o["tape"] or [])) + "]"
+
+
+def fcalls(o):
+    return "[" + "; ".join("(%d%%N, %d%%N, %s)" % (c["pos"], c["len"], zz(c["off"])) for c in (o["calls"] or [])) + "]"
+
+
 def to_case(o):
     k = o["kind"]
+    if k == "bigwrite":
+        return "CBigW %d%%N %d%%N %d%%N %d%%N %d%%N %s %s %d%%N %d%%N %s %s %s %s" % (
+            o["msize"], o["cs"], o["pa"], o["pc"], o["lenp"], zz(o["off"]), ftape(o), o["stored"], max(o["n"], 0), err(o["err"]), fcalls(o),
+            zz(o["wstart"]), bl(o["window"]))
+    if k == "bigread":
+        return "CBigR %d%%N %d%%N %d%%N %d%%N %d%%N %s %s %d%%N %d%%N %d%%N %s %d%%N %s %s %s" % (
+            o["msize"], o["cs"], o["pa"], o["pc"], o["lenp"], zz(o["off"]), zz(o["base"]), o["fa"], o["fc"], o["flen"], ftape(o),
+            max(o["n"], 0), err(o["err"]), fcalls(o), bl(o["buf_after"]))
     if k == "direct":
         tape = "[" + "; ".join("(%d%%N, %s)" % (a["n"], err(a["err"])) for a in (o["tape"] or [])) + "]"
         calls = "[" + "; ".join("(%d%%N, %d%%N, %s)" % (c["pos"], c["len"], zz(c["off"])) for c in (o["calls"] or [])) + "]"
@@ -66,7 +83,8 @@ def to_case(o):
                                                                err(o["err"]), calls, coq_bool(o["content_ok"]))
     big = len(o["p"]) + o["cs"] + 1
     if k == "write":
-        tape = "[" + "; ".join(("WErr %s" % err(a["err"])[6:-1]) if a["err"]["k"] != "nil" else "WCount %s" % nat(a["n"] if a["n"] >= 0 else big)
+        tape = "[" + "; ".join(("WErrStored %s %s" % (nat(a["n"] if a["n"] >= 0 else big), err(a["err"])[6:-1])) if a.get("stored") else
+                               ("WErr %s" % err(a["err"])[6:-1]) if a["err"]["k"] != "nil" else "WCount %s" % nat(a["n"] if a["n"] >= 0 else big)
                                for a in (o["tape"] or [])) + "]"
         return "CWrite %d%%N %d%%N %s %s %s %s %s %s %s %s %s %s %s" % (
             o["msize"], o["cs"], bl(o["p"]), zz(o["off"]), zz(o["base"]), bl(o["file0"]), tape, nat(o["n"]), err(o["err"]), ocalls(o["calls"]),
@@ -96,7 +114,7 @@ def run(ctx):
     shards, cur, size = [], [], 0
     for i, o in enumerate(obs):
         t = "(%s)" % to_case(o)
-        if cur and (size + len(t) > 130000 or len(cur) >= 250):
+        if cur and (size + len(t) > 300000 or len(cur) >= 250):
             shards.append(cur)
             cur, size = [], 0
         cur.append((i, t))
@@ -133,7 +151,8 @@ def run(ctx):
                 "EOF, over-reporting); end to end: msize {154..1177} with content in Coq, msize {2201..1MiB(+4MiB thorough)} at length level, lengths k*payload+-1, "
                 "offsets 0/inside/at EOF/after EOF/>2^32/>2^40, tapes: none, one short count, one error, several short counts; distinct = distinct records",
         "correspondence": {"cases": len(obs), "mismatches": nm, "by_kind": kinds, "multi_chunk_runs": multi},
-        "samples": [small(next(o for o in obs if o["kind"] == "direct" and len(o["calls"] or []) > 2)),
+        "samples": [small(next(o for o in obs if o["kind"] == "bigwrite")),
+                    small(next(o for o in obs if o["kind"] == "direct" and len(o["calls"] or []) > 2)),
                     small(next(o for o in obs if o["kind"] == "write" and len(o["calls"] or []) > 1)),
                     small(next(o for o in obs if o["kind"] == "read" and len(o["calls"] or []) > 1))],
     })
